@@ -101,7 +101,8 @@ def make_exc(kind):
 
 def gen_config(rng):
     cfg = {}
-    cfg["actors"] = rng.choice([1, 2, 2, 2, 3, 3])
+    thorough = os.environ.get("VERIF_TIER_INTERNAL", "quick") == "thorough"
+    cfg["actors"] = rng.choice([1, 2, 2, 3, 3, 4] if thorough else [1, 2, 2, 2, 3, 3])
     cfg["observer"] = rng.random() < 0.6
     cfg["mgrs"] = rng.choice([["be"], ["ta"], ["be", "ta"], ["be", "ta"]])
     cfg["D0"] = {"be": rng.choice(["numpy", "numpy", "jax"]), "ta": rng.choice(["core", "core", "einsum"])}
@@ -111,7 +112,8 @@ def gen_config(rng):
     cfg["p_inst"] = rng.choice([0.0, 0.15, 0.4])
     cfg["p_cur"] = rng.choice([0.0, 0.1, 0.25])  # select "whatever current_backend() returns" (an instance)
     cfg["p_raise"] = rng.choice([0.0, 0.15, 0.3])
-    cfg["max_ops"] = rng.choice([2, 3, 4, 6])
+    cfg["max_ops"] = rng.choice([2, 4, 6, 8, 10] if thorough else [2, 3, 4, 6])
+    cfg["max_depth"] = 4 if thorough else 3
     cfg["w_with"] = rng.choice([1, 3, 5])
     strat = rng.random()
     if strat < 0.1:
@@ -153,7 +155,7 @@ def _gen_ops(rng, cfg, depth, budget):
         elif r < 4.0:
             ops.append({"op": "attr", "mgr": "be"} if "be" in cfg["mgrs"] else {"op": "get", "mgr": mgr})
         else:
-            if depth >= 3:
+            if depth >= cfg.get("max_depth", 3):
                 ops.append({"op": "get", "mgr": mgr})
                 continue
             body = _gen_ops(rng, cfg, depth + 1, budget)
